@@ -12,5 +12,5 @@ for d in seeded/*/; do
     out=$(./check $c --tier ${TIER:-quick} 2>&1); code=$?
     echo "$c tier=${TIER:-quick} exit=$code $(echo "$out" | grep -m1 'what:' | cut -c1-220)" | tee -a $d/detection.txt | sed "s/^/$name: /"
   done
-  git -C /repo checkout -- .
+  git -C /repo checkout -- . && git -C /repo clean -fdq src
 done
